@@ -363,6 +363,20 @@ func checkC11(c *core.Ctx) {
 	if c.Thorough() {
 		wide = append(wide, bdo{1, 128, 2}, bdo{2, 257, 2}, bdo{128, 2, 3}, bdo{5, 8, 8}, bdo{1, 9, 9}, bdo{33, 33, 2})
 	}
+	// length sweep (see checks_sweep.go): batch, inputs and outputs each swept alone
+	for _, L := range sweepLengthsShort(c.Thorough()) {
+		if L > 3 {
+			wide = append(wide, bdo{L, 2, 2}, bdo{1, L, 2}, bdo{2, 2, L})
+		}
+	}
+	// grid (see checks_grid.go): batch, inputs and outputs medium at the same time
+	for _, B := range []int{4, 8, 17} {
+		for _, D := range []int{4, 8, 17} {
+			for _, O := range []int{4, 8, 17} {
+				wide = append(wide, bdo{B, D, O})
+			}
+		}
+	}
 	nSmall := len(dims)
 	dims = append(dims, wide...)
 	for di, dd := range dims {
@@ -374,9 +388,18 @@ func checkC11(c *core.Ctx) {
 					devs, lrs = []c11Devs{nil}, []lrCfg{{lr: 0.1}}
 				}
 				for _, act := range acts {
+					wideDims := di >= nSmall
 					for _, loss := range []string{"MSE", "BCE", "CE"} {
+						if wideDims && loss != "MSE" && act.K != "Sigmoid" && act.K != "Softmax" {
+							// BCE / CE of outputs outside (0,1) sit on the clipping bound, where a
+							// long sum decides on which side: not a well-conditioned trajectory
+							continue
+						}
 						for _, lr := range lrs {
 							for ini := 0; ini < 4; ini++ {
+								if wideDims && (ini == 1 || ini == 3) {
+									continue // sweeps / grids: one generic and the default initialisation
+								}
 								for _, dev := range devs {
 									if c.Expired() {
 										return
